@@ -14,7 +14,7 @@ FUNCTIONS = ["compute_attractor_candidates", "run_simulation_minification", "asp
              "make_heuristic_retained_set", "SuccessionDiagram.node_attractor_candidates", "SuccessionDiagram.node_percolated_nfvs"]
 CFG = {"cfg_thr": "retained_set_optimization_threshold", "cfg_lim": "attractor_candidates_limit",
        "cfg_sim": "minimum_simulation_budget", "cfg_nfvs": "nfvs_size_threshold"}
-PREFIXES = [(), ("succ",), ("fullbfs",), ("bfs",), ("succ", "skiprem"), ("minp",)]
+PREFIXES = [(), ("succ",), ("fullbfs",), ("bfs",), ("succ", "skiprem"), ("minp",), ("succ", "skiprem", "cands"), ("bfs", "skipall", "seeds")]
 
 
 def declare(prefix, n, cfgmax):
@@ -46,6 +46,8 @@ def assertion(B, out):
     parts = []
     trace = out["trace"]
     for k, ent in enumerate(trace[:-1]):
+        if ent["kind"] in ("cands", "seeds") and ent["rec"]["exc"] == "RuntimeError" and "maximum amount of attractor candidates" in (ent["rec"].get("msg") or ""):
+            return parts        # a query in the prefix hit the configured limit (documented): nothing is claimed for this history
         parts.append((f"prefix op {k} {ent['kind']} raised {ent['rec']['exc']}", B.const(ent["rec"]["exc"] is None)))
     last = trace[-1]
     if last["rec"].get("skipped"):
@@ -58,12 +60,20 @@ def assertion(B, out):
                       B.const(rec["exc"] == "RuntimeError" and "maximum amount of attractor candidates" in (rec.get("msg") or ""))))
         parts.append(("nothing cached after the error", B.const(nd["attractor_candidates"] is None and nd["attractor_seeds"] is None)))
         return parts
+    excluded = []
     if nd["skipped"]:
-        # skip nodes: soundness only here (coverage over all nodes is C05)
-        for c in rec["ret"]:
-            parts.append((f"candidate {c} of skip node {nid} is a total state in the node", B.const(all(v is not None for v in c) and specs.in_space(tuple(c), nd["space"]))))
-        return parts
-    parts += specs.candidates_cover(B, last["dump"], nid, rec["ret"])
+        # skip nodes: by design the computation also leaves out N ∩ n for every other node n that does not contain N
+        # and whose candidates or seeds were already known to be empty WHEN THE CALL WAS MADE (such an n has no attractor
+        # outside its own successors).  Everything else in the node must be covered.
+        before = specs.node_by_id(trace[-2]["dump"]) if len(trace) >= 2 else {}
+        for oid, o in before.items():
+            if oid == nid or specs.refines(nd["space"], o["space"]):
+                continue
+            if o.get("attractor_candidates") == [] or o.get("attractor_seeds") == []:
+                m = specs.meet(nd["space"], o["space"])
+                if m is not None:
+                    excluded.append(m)
+    parts += specs.candidates_cover(B, last["dump"], nid, rec["ret"], excluded)
     parts.append(("returned list is what was cached", B.const(nd["attractor_candidates"] == [tuple(c) for c in rec["ret"]])))
     return parts
 
@@ -143,6 +153,9 @@ def tasks(tier, seed, selftest=False):
     for p in ((), ("fullbfs",)):
         add("N3", p, 30 if q else 1200, slice_="simonly")
         add("U2", p, 15 if q else 600, slice_="simonly")
+    # skip nodes that contain a motif-avoidant attractor, queried after other nodes (the exclusions of skip nodes)
+    for p in (("succ", "skiprem", "cands"), ("succ", "skiprem")):
+        add("P:MAA3+SRC1", p, 25 if q else 900)
     # inputs presented as free inputs (variables without update function)
     for p in ((), ("succ",)):
         add("D3", p, 12 if q else 600, free=True)
@@ -160,6 +173,7 @@ def main(tier, seed, t0, selftest=False):
                          bounds={"node": "any node (symbolic id) after a prefix history from " + str(PREFIXES),
                                  "options": "greedy_asp_minification, simulation_minification symbolic flags (pint off)",
                                  "config": "each of the 4 numeric fields in {default} ∪ 0..5, symbolic",
+                                 "skip nodes": "per-node coverage with exactly the exclusions the design allows (N ∩ n for non-ancestor nodes n whose candidates/seeds were empty when the call was made); families P:MAA3+SRC1 with prefixes succ+skiprem[+cands]",
                                  "families": "U2, D3, N3 (3 variables, each negatively auto-regulated: NFVS = all) with the regeneration slice (threshold 0/1, greedy on); + U3 cubes, reversed oracle order (thorough); time-boxed",
                                  "heuristics": "NFVS and Random(123) shuffle take their real values (REG concretised)"},
                          assumptions=["contract stubs of DESIGN.md §8 validated on every representative",
